@@ -12,6 +12,23 @@ for _p in sorted(os.listdir(os.path.join(VERIF, "lib", "manifest"))):
 
 PENDING = {}
 
+def hook_commits():
+    """hook commits = commits of /repo whose subject starts with 'verif hook' (hashes as they are on the current branch)"""
+    import subprocess
+    try:
+        out = subprocess.run(["git", "-C", "/repo", "log", "--format=%H %s"], stdout=subprocess.PIPE).stdout.decode()
+        hs = [l.split()[0] for l in out.splitlines() if l.split(" ", 1)[1].startswith("verif hook")]
+        hs.reverse()
+        if hs:
+            with open(os.path.join(VERIF, "hooks.txt"), "w") as f:
+                f.write("\n".join(hs) + "\n")
+            return hs
+    except Exception:
+        pass
+    p = os.path.join(VERIF, "hooks.txt")
+    return [l.strip() for l in open(p) if l.strip()] if os.path.exists(p) else []
+
+
 def main():
     props = [json.loads(l)["id"] for l in open(os.path.join(VERIF, "properties.jsonl"))]
     checks = []
@@ -38,7 +55,7 @@ def main():
             "guard": "verif",
             "enable": "go build -tags verif (harness module /verif/harness with replace github.com/moov-io/ach => /repo)",
             "baseline_off_cmd": "cd /repo && go test -mod=mod -json -vet=off -count=1 -timeout 25m ./...",
-            "source_commits": [l.strip() for l in open(os.path.join(VERIF, "hooks.txt")) if l.strip()] if os.path.exists(os.path.join(VERIF, "hooks.txt")) else [],
+            "source_commits": hook_commits(),
             "add_only": True,
         },
         "engines": [
